@@ -580,16 +580,25 @@ func runC17P12(c *Ctx, rk *rsa.PrivateKey, rcert *gx509.Certificate) {
 	r := c.Rng("p12")
 	pwds := []struct{ cls, p string }{{"empty", ""}, {"ascii", "Passw0rd"}, {"non-ascii", "pässwörd-密码"}, {"long", string(bytes.Repeat([]byte("ab"), 60))}}
 	n := c.Q(12, 120)
+	// key classes: small scalars and keys whose d, x or y have leading zero bytes (fixed-width encoders), plus random
+	kcls := keyClasses(c.Rng("p12keys"), 4, false)
+	if n < len(kcls)+4 {
+		n = len(kcls) + 4
+	}
 	Par(n, func(i int) {
 		rr := c.Rng(fmt.Sprintf("p12-%d", i))
 		k := newSM2Key(rr)
+		kc := "random"
+		if i < len(kcls) {
+			k, kc = kcls[i].priv(), kcls[i].cls
+		}
 		cert, _, err := issueSM2(certSpec{cn: fmt.Sprintf("p12-%d", i), serial: int64(900 + i), dns: []string{"p12.example"}}, &k.PublicKey, nil, k, rr)
 		if err != nil {
 			return
 		}
 		pw := pwds[i%len(pwds)]
-		cls := fmt.Sprintf("pkcs12/sm2/pw=%s/ca=%d", pw.cls, i%3)
-		w := map[string]interface{}{"password_class": pw.cls, "d": k.D.Text(16)}
+		cls := fmt.Sprintf("pkcs12/sm2/key=%s/pw=%s/ca=%d", kc, pw.cls, i%3)
+		w := map[string]interface{}{"password_class": pw.cls, "d": k.D.Text(16), "key_class": kc}
 		var cas []*stdCert
 		_ = cas
 		var pfx []byte
